@@ -115,6 +115,16 @@ pub fn check(c: &LitCase) -> CaseReport {
         Ok(v) => return fail("right-operand-wrong-value", "query(0 + lit)", v.to_string()),
         Err(e) => return fail("right-operand-not-a-number", "query(0 + lit)", e),
     }
+    // (5) after a literal the number parser refuses, in the same query (two results: an error, then the value)
+    let q = format!("(1e99999999999) ({})", s);
+    match run(db, &q) {
+        Ok(rs) if rs.len() == 2 => match &rs[1] {
+            crate::tool::R::Ok(v) if v.unit.is_empty() && v.value == want => {}
+            other => return fail("wrong-value-after-a-refused-literal", "query((refused) (lit))", other.brief()),
+        },
+        Ok(rs) => return fail("wrong-value-after-a-refused-literal", "query((refused) (lit))", format!("{} results", rs.len())),
+        Err(p) => return fail("panic", "query((refused) (lit))", p),
+    }
     CaseReport::pass(s, nt, classes)
 }
 
@@ -217,6 +227,24 @@ pub fn run_check(ctx: &Ctx) {
     let long = LitCfg { max_int_digits: ctx.tier.pick(300, 600), max_frac_digits: ctx.tier.pick(300, 600), max_exp: 999, allow_percent: true, allow_neg: true, allow_plus: true, allow_exotic: true };
     ctx.run_gen("random-long", || gen::lit(long).prop_map(|l| LitCase { lit: l.text }), n / 40, check, |c| to_json(c));
     ctx.run_gen("word-boundary", || gen::word_boundary_lit().prop_map(|l| LitCase { lit: l.text }), n / 10, check, |c| to_json(c));
+    // literals of more than a thousand characters with a point and an exponent, around the powers of two a
+    // buffer or fast path might be sized by (the tool's reader is quadratic, so only a handful)
+    let sizes: Vec<usize> = ctx.tier.pick(vec![1020usize, 1030, 1100], vec![1020, 1024, 1025, 1030, 1100, 2040, 2050, 4090, 4100]);
+    let huge: Vec<LitCase> = sizes
+        .iter()
+        .enumerate()
+        .flat_map(|(i, n)| {
+            let digit = |k: usize| char::from(b'0' + ((k * 7 + i * 3 + 1) % 10) as u8);
+            let ints: String = (0..n / 2).map(digit).collect();
+            let frac: String = (0..n - n / 2).map(|k| digit(k + 5)).collect();
+            vec![
+                LitCase { lit: format!("{}.{}e{}", ints, frac, 3 + i) },
+                LitCase { lit: format!("-{}.{}E-{}", ints, frac, 40 + i) },
+                LitCase { lit: format!("{}{}.5e+2", "0".repeat(*n), i + 1) },
+            ]
+        })
+        .collect();
+    ctx.run_list("thousand-digit-literals", &huge, check, |c| to_json(c));
     let mid = LitCfg { max_int_digits: 30, max_frac_digits: 30, max_exp: 99, ..long };
     ctx.run_gen("random-mid", || gen::lit(mid).prop_map(|l| LitCase { lit: l.text }), n, check, |c| to_json(c));
 }
